@@ -5,6 +5,7 @@ import (
 
 	pb "github.com/google/go-tdx-guest/proto/tdx"
 	vp "github.com/google/go-tdx-guest/zzvp"
+	"github.com/google/go-tdx-guest/zzvp/q"
 )
 
 // The harness's own serialisation of header || TD body (bytes 0-631 of the
@@ -96,3 +97,22 @@ func H01d_auth33()          { h01(33, 0) }
 func T01d_auth31()          { h01(31, 0) }
 func T01e_auth200()         { h01(200, 1) }
 func T01f_auth64()          { h01(64, 2) }
+
+// H01g: histories. A second quote verified after an accepted first one (same process, fresh
+// options) is judged on its own links: nothing remembered from the first verification helps it.
+func H01g_SecondQuoteAfterAcceptedFirst() {
+	w := mkPKI(0, nil)
+	first := mkQuote(w, 32)
+	if TdxQuote(first, &Options{Now: symTimeSet("t1")}) != nil {
+		return
+	}
+	vp.Reach("first-accepted", true)
+	second := q.Valid("q2_", q.Shape{AuthLen: 32, Chain: w.chainBytes})
+	err := TdxQuote(second, &Options{Now: symTimeSet("t2")})
+	sigOK, bindOK, qeSigOK := links01(second, w.leaf)
+	vp.Reach("second-accepted", err == nil)
+	vp.Reach("second-rejected", err != nil)
+	vp.Assert("second-accepted-implies-quote-signed-by-attestation-key", vp.Implies(err == nil, sigOK))
+	vp.Assert("second-accepted-implies-report-data-binds-key-and-auth-data", vp.Implies(err == nil, bindOK))
+	vp.Assert("second-accepted-implies-qe-report-signed-by-leaf-key", vp.Implies(err == nil, qeSigOK))
+}
